@@ -313,3 +313,236 @@ def run(ctx, col, tier):
     col.guard(cache_rule, ctx, col)
     col.guard(chain_rule, ctx, col)
     col.guard(rows_rule, ctx, col)
+    col.guard(anchored, ctx, col)
+    col.guard(recognisers, ctx, col)
+
+
+def _expand(d, e, depth=3):
+    """e with local names that have a single plain assignment in d replaced by their value (for reading through temporaries)"""
+    if depth == 0:
+        return [e]
+    out = [e]
+    for n in ast.walk(e):
+        if isinstance(n, ast.Name):
+            asg = [a for a in own_nodes(d) if isinstance(a, ast.Assign) and len(a.targets) == 1 and norm_src(a.targets[0]) == n.id]
+            if len(asg) == 1:
+                out += _expand(d, asg[0].value, depth - 1)
+    return out
+
+
+def anchored(ctx, col):
+    """Statements that carry the clauses (three-way, one renaming per function) and the definite recognisers."""
+    repo = ctx.repo
+    L = repo.get_class(f"{POP}.LazyLoadingTrees")
+    C = repo.get_class(f"{POP}.ChainTrees")
+    load, lgi, linit = L.lookup_method("load"), L.lookup_method("__getitem__"), L.lookup_method("__init__")
+    col.text_group("R-CACHE", load.qualname, load, [
+        ("slot k is read from file k, with the stored options, only while it is empty",
+         ["if self.trees[key] is None: self.trees[key] = Tree.from_swc(self.swcs[key], **self.kwargs)"], "a:load")], fixed=("Tree",))
+    col.text_group("R-CACHE", lgi.qualname, lgi, [
+        ("the key is normalised against the number of files", ["idx = _get_idx(key, len(self))"], "a:norm"),
+        ("that slot is loaded", ["self.load(idx)"], "a:load-call"),
+        ("that slot is returned", ["return cast(Tree, self.trees[idx])", "return self.trees[idx]"], "a:ret")], fixed=("_get_idx", "key"))
+    col.text_group("R-CACHE", linit.qualname, linit, [
+        ("the file list is materialised", ["self.swcs = list(swcs)"], "a:swcs"),
+        ("one empty slot per file", ["self.trees = [None for _ in swcs]", "self.trees = [None for _ in self.swcs]", "self.trees = [None] * len(self.swcs)"], "a:slots"),
+        ("reader options are kept", ["self.kwargs = kwargs"], "a:kw")], fixed=("swcs", "kwargs"))
+    # the loader without any condition: every access reads the file again
+    if not any(isinstance(n, (ast.If, ast.IfExp, ast.Try, ast.While, ast.Return, ast.BoolOp, ast.Match)) for n in own_nodes(load)):
+        for n in own_nodes(load):
+            if isinstance(n, ast.Assign) and isinstance(n.targets[0], ast.Subscript) and norm_src(n.targets[0].value) == "self.trees" \
+                    and any(isinstance(c, ast.Call) and (dotted(c.func) or "").endswith("from_swc") for c in ast.walk(n.value)):
+                col.bad("R-CACHE", load.qualname, load.loc(n), "the file is read only while the slot is still empty",
+                        f"`{norm_src(n)}` is executed unconditionally (load() has no branch at all) and indexing calls load() on every access: "
+                        f"a file is read once per access, not at most once", stmt="a:unguarded", definite=True)
+    # a second cache over the same files
+    m = repo.get_module(POP)
+    for d in repo.all_defs():
+        if d.module is not m or d.is_lambda:
+            continue
+        for c in own_nodes(d):
+            if isinstance(c, ast.Call) and (dotted(c.func) or "").split(".")[-1] == "LazyLoadingTrees" and c.args:
+                srcs = [x for e in _expand(d, c.args[0]) for x in ast.walk(e) if isinstance(x, ast.Attribute) and x.attr == "swcs"]
+                if srcs and d.cls is not L:
+                    col.bad("R-WHOCALLS", d.qualname, d.loc(c), "every file has one cache slot",
+                            f"`{norm_src(c)[:90]}` builds a second loader over the file list of an existing one (`{norm_src(srcs[0])}`): "
+                            f"a file reached through both is read once by each", stmt="a:second-cache", definite=True)
+    # chain
+    ci, cgi, cl = C.lookup_method("__init__"), C.lookup_method("__getitem__"), C.lookup_method("__len__")
+    col.text_group("R-CHAIN", ci.qualname, ci, [
+        ("members are materialised, in order", ["self.trees = list(trees)"], "a:members"),
+        ("prefix sums from 0 over the length of every member", ["self.cumsum = np.cumsum([0] + [len(ts) for ts in self.trees])"], "a:cumsum")], fixed=("trees",))
+    for a in own_nodes(ci):
+        if isinstance(a, ast.Assign) and norm_src(a.targets[0]) == "self.cumsum":
+            for e in _expand(ci, a.value):
+                for comp in ast.walk(e):
+                    if isinstance(comp, (ast.ListComp, ast.GeneratorExp)) and any(g.ifs for g in comp.generators):
+                        kept = [x for x in own_nodes(ci) if isinstance(x, ast.Assign) and norm_src(x.targets[0]) == "self.trees"]
+                        if kept and not any(isinstance(y, (ast.ListComp, ast.GeneratorExp)) and any(g.ifs for g in y.generators) or
+                                            (isinstance(y, ast.Call) and dotted(y.func) == "filter") for y in ast.walk(kept[0].value)):
+                            col.bad("R-CHAIN", ci.qualname, ci.loc(a), "prefix sums from 0 over the length of every member",
+                                    f"the prefix sums are taken over a filtered list (`{norm_src(comp)[:80]}`) while `self.trees` keeps every member: "
+                                    f"cumsum[k] no longer belongs to member k-1, so indices after a skipped member resolve to the wrong member",
+                                    stmt="a:cumsum-filter", definite=True)
+    col.text_group("R-CHAIN", cgi.qualname, cgi, [
+        ("search range: members 1..n", ["i, j = 1, len(self.trees)"], "a:range"),
+        ("the key is normalised against the total length", ["idx = _get_idx(key, len(self))"], "a:norm"),
+        ("bisect-right over the prefix sums: an index equal to a prefix sum belongs to the next member",
+         ["while i < j:\n    mid = (i + j) // 2\n    if self.cumsum[mid] <= idx:\n        i = mid + 1\n    else:\n        j = mid"], "a:bisect"),
+        ("member i-1 at offset idx - cumsum[i-1]", ["return self.trees[i - 1][idx - self.cumsum[i - 1]]"], "a:result")], fixed=("_get_idx", "key"))
+    col.text_group("R-CHAIN", cl.qualname, cl, [("total length is the last prefix sum", ["return self.cumsum[-1].item()", "return int(self.cumsum[-1])"], "a:len")])
+    tp = repo.get_def(f"{POP}.Populations.to_population")
+    col.text_group("R-CHAIN", tp.qualname, tp, [("chaining takes the members' containers in order",
+                   ["return Population(ChainTrees(p.trees for p in self.populations))", "return Population(ChainTrees([p.trees for p in self.populations]))"], "a:chain")],
+                   fixed=("Population", "ChainTrees"))
+    # population indexing
+    pg = repo.get_def(f"{POP}.Population.__getitem__")
+    col.text_group("R-ROWS", pg.qualname, pg, [
+        ("a slice is a view through the slice's indices of the same container", ["trees = NestTrees(self.trees, range(*key.indices(len(self))))", "return NestTrees(self.trees, range(*key.indices(len(self))))"], "a:slice"),
+        ("an integer goes to the container", ["return cast(Tree, self.trees[int(key)])", "return self.trees[int(key)]", "return self.trees[key]"], "a:int")], fixed=("key", "NestTrees"))
+    ng, ni = repo.get_def(f"{POP}.NestTrees.__getitem__"), repo.get_def(f"{POP}.NestTrees.__init__")
+    col.text_group("R-ROWS", ng.qualname, ng, [("a view indexes through its index list", ["return self.trees[self.idx[key]]"], "a:nest")], fixed=("key",))
+    col.text_group("R-ROWS", ni.qualname, ni, [("the view keeps the container", ["self.trees = trees"], "a:nest-t"), ("... and the materialised index list", ["self.idx = list(idx)"], "a:nest-i")],
+                   fixed=("trees", "idx"))
+    gx = repo.get_def(f"{POP}._get_idx")
+    col.guard(_get_idx_table, ctx, col, gx)
+    # rows
+    fs = repo.get_def(f"{POP}.Populations.from_swc")
+    col.text_group("R-ROWS", fs.qualname, fs, [
+        ("files are listed relative to each root", ["fs = [Population.find_swcs(d, ext=ext, relpath=True) for d in roots]"], "a:relpath"),
+        ("the common relative paths", ["inter = list(reduce(lambda a, b: set(a).intersection(set(b)), fs))"], "a:inter"),
+        ("every root gets the same list object (same order in every row)", ["fs = [inter for _ in roots]"], "a:shared"),
+        ("population i joins root i with file list i, lazily",
+         ["populations = [Population(LazyLoadingTrees([os.path.join(d, p) for p in fs[i]], **kwargs), root=d) for i, d in enumerate(roots)]"], "a:per-root")],
+        fixed=("roots", "ext", "kwargs", "Population", "LazyLoadingTrees", "reduce"))
+    pg2 = repo.get_def(f"{POP}.Populations.__getitem__")
+    col.text_group("R-ROWS", pg2.qualname, pg2, [("row i = tree i of every population, in population order", ["return [p[key] for p in self.populations]"], "a:row")], fixed=("key",))
+    fsw = repo.get_def(f"{POP}.Population.find_swcs")
+    col.text_group("R-ROWS", fsw.qualname, fsw, [
+        ("paths are relative to the root only on request", ["rr = os.path.relpath(r, root) if relpath else r"], "a:rel"),
+        ("files are selected by their extension", ["fs = filter(lambda f: os.path.splitext(f)[-1] == ext, files)"], "a:ext"),
+        ("each selected file, joined to its directory, is listed", ["swcs.extend(os.path.join(rr, f) for f in fs)"], "a:list"),
+        ("the list is returned", ["return swcs"], "a:ret")], fixed=("root", "ext", "relpath"))
+    # str.strip with a multi-character argument strips a character SET, not a prefix
+    for d in (fsw, fs, repo.get_def(f"{POP}.Population.from_swc")):
+        for c in own_nodes(d):
+            if isinstance(c, ast.Call) and isinstance(c.func, ast.Attribute) and c.func.attr in ("lstrip", "rstrip", "strip") and len(c.args) == 1 \
+                    and isinstance(c.args[0], ast.Constant) and isinstance(c.args[0].value, str) and len(set(c.args[0].value)) > 1:
+                col.bad("R-ROWS", d.qualname, d.loc(c), "file names are passed on unchanged",
+                        f"`{norm_src(c)}` strips every leading/trailing character of the SET {sorted(set(c.args[0].value))}, not the prefix "
+                        f"{c.args[0].value!r}: a file or folder whose name starts (ends) with one of them (`.hidden.swc`, `../x`) is renamed, so the path no "
+                        f"longer names the file found", stmt="a:strip-set", definite=True)
+
+
+def recognisers(ctx, col):
+    """Definite facts read off the code (not shapes)."""
+    from ..fold import Folder, Unfoldable
+    repo = ctx.repo
+    pi = repo.get_def(f"{POP}.Population.__init__")
+    # eager loading must not happen when lazy_loading is true
+    for c in own_nodes(pi):
+        if not (isinstance(c, ast.Call) and isinstance(c.func, ast.Attribute) and c.func.attr == "load"):
+            continue
+        conds, x, prev = [], repo.parent(c), c
+        while x is not None and x is not pi.node:
+            if isinstance(x, ast.If) and "lazy_loading" in names_in(x.test):
+                conds.append((x.test, any(prev is b for b in x.body)))
+            prev, x = x, repo.parent(x)
+        runs = True
+        try:
+            for t, pos in conds:
+                v = bool(Folder(repo, pi.module, None, {"lazy_loading": True}).eval(t))
+                runs = runs and (v == pos)
+        except Unfoldable:
+            continue
+        if runs:
+            col.bad("R-WHOCALLS", pi.qualname, pi.loc(c), "with lazy_loading=True construction loads nothing",
+                    f"`{norm_src(c)}` is reached with lazy_loading=True (guards: {[norm_src(t) for t, _ in conds] or 'none'}): every file is read at construction",
+                    stmt="a:eager", definite=True)
+    # bisect over a key that was not normalised
+    C = repo.get_class(f"{POP}.ChainTrees")
+    cgi = C.lookup_method("__getitem__")
+    params = {a.arg for a in cgi.node.args.posonlyargs + cgi.node.args.args} - {"self"}
+    for w in own_nodes(cgi):
+        if not isinstance(w, ast.While):
+            continue
+        for cmp_ in ast.walk(w):
+            if isinstance(cmp_, ast.Compare) and len(cmp_.ops) == 1 and any("cumsum" in norm_src(z) for z in (cmp_.left, cmp_.comparators[0])):
+                for side in (cmp_.left, cmp_.comparators[0]):
+                    if isinstance(side, ast.Name):
+                        defs = [a for a in own_nodes(cgi) if isinstance(a, ast.Assign) and norm_src(a.targets[0]) == side.id]
+                        raw = side.id in params and not defs or (defs and all(isinstance(a.value, ast.Name) and a.value.id in params for a in defs))
+                        if raw:
+                            col.bad("R-CHAIN", cgi.qualname, cgi.loc(cmp_), "the key is normalised against the total length",
+                                    f"`{norm_src(cmp_)}` compares the prefix sums with `{side.id}`, which is the caller's key as given: a negative index is "
+                                    f"below every prefix sum, so it resolves to member 0 at that negative offset instead of counting from the end of the chain",
+                                    stmt="a:raw-key", definite=True)
+    # order
+    for q in ("Populations.__getitem__", "Populations.to_population", "Populations.__iter__", "Population.map", "Population.__iter__"):
+        d = repo.get_def(f"{POP}.{q}")
+        for c in own_nodes(d):
+            rev = None
+            if isinstance(c, ast.Call) and dotted(c.func) in ("reversed", "sorted", "set", "frozenset") and c.args and \
+                    any(isinstance(z, ast.Attribute) and z.attr in ("populations", "trees") for z in ast.walk(c.args[0])):
+                rev = c
+            if isinstance(c, ast.Subscript) and isinstance(c.slice, ast.Slice) and c.slice.step is not None and norm_src(c.slice.step) == "-1" \
+                    and isinstance(c.value, ast.Attribute) and c.value.attr in ("populations", "trees"):
+                rev = c
+            if isinstance(c, ast.Call) and (dotted(c.func) or "").split(".")[-1] in ("as_completed", "imap_unordered"):
+                rev = c
+            if rev is not None:
+                col.bad("R-ROWS", d.qualname, d.loc(rev), "members / results are taken in order",
+                        f"`{norm_src(rev)[:80]}` does not keep the stored order ({q} must yield population k / tree k at position k)", stmt="a:order", definite=True)
+
+
+def _get_idx_table(ctx, col, gx):
+    """_get_idx(key, n): the decision table over key in {-n-1, -n, -1, 0, n-1, n} for n = 3, folded."""
+    from ..fold import Unfoldable
+    n = 3
+    want = {-4: IndexError, -3: 0, -1: 2, 0: 0, 2: 2, 3: IndexError}
+    for k, w in want.items():
+        try:
+            got = _run_get_idx(ctx, gx, k, n)
+        except Unfoldable as e:
+            col.unresolved("R-CHAIN", gx.qualname, gx.loc(), f"_get_idx({k}, {n})", str(e), stmt=f"a:getidx:{k}")
+            continue
+        col.check(got == w, "R-CHAIN", gx.qualname, gx.loc(), f"_get_idx({k}, {n}) = {getattr(w, '__name__', w)}",
+                  str(getattr(got, "__name__", got)), f"_get_idx({k}, {n}) gives {getattr(got, '__name__', got)}, expected {getattr(w, '__name__', w)}",
+                  stmt=f"a:getidx:{k}", definite=True)
+
+
+def _run_get_idx(ctx, gx, k, n):
+    """Straight-line/if interpretation of the small pure function with constant arguments."""
+    from ..fold import Folder, Unfoldable
+    params = [a.arg for a in gx.node.args.args]
+    env = dict(zip(params, (k, n)))
+
+    def ev(e):
+        return Folder(ctx.repo, gx.module, None, dict(env)).eval(e)
+
+    def block(body):
+        for s in body:
+            if isinstance(s, ast.Expr) and isinstance(s.value, ast.Constant):
+                continue
+            if isinstance(s, ast.If):
+                r = block(s.body if ev(s.test) else s.orelse)
+                if r is not None:
+                    return r
+            elif isinstance(s, ast.Assign) and len(s.targets) == 1 and isinstance(s.targets[0], ast.Name):
+                env[s.targets[0].id] = ev(s.value)
+            elif isinstance(s, ast.AugAssign) and isinstance(s.target, ast.Name):
+                env[s.target.id] = ev(ast.BinOp(left=ast.Name(id=s.target.id, ctx=ast.Load()), op=s.op, right=s.value))
+            elif isinstance(s, ast.Raise):
+                exc = s.exc.func if isinstance(s.exc, ast.Call) else s.exc
+                return ("raise", norm_src(exc))
+            elif isinstance(s, ast.Return):
+                return ("ret", ev(s.value))
+            else:
+                raise Unfoldable(f"statement kind {type(s).__name__}")
+        return None
+    r = block(gx.node.body)
+    if r is None:
+        raise Unfoldable("falls off the end")
+    if r[0] == "raise":
+        return IndexError if r[1] == "IndexError" else r[1]
+    return r[1]
